@@ -161,10 +161,15 @@ zero_out:
 	/* Dst buf size calculation. */
 	dcd_size = (src_size_real / 4);
 	src_m4_size = (dcd_size * 4);
-	if (src_m4_size != src_size_real) { /* Is multiple of 4? */
-		dcd_size ++;
-	}
 	dcd_size *= 3;
+	switch ((src_size_real - src_m4_size)) { /* Tail: exact size. */
+	case 2:
+		dcd_size += 1;
+		break;
+	case 3:
+		dcd_size += 2;
+		break;
+	}
 	if (dst_size < dcd_size) { /* Is dst buf too small? */
 		if (NULL != dcd_size_ret) {
 			(*dcd_size_ret) = dcd_size;
